@@ -261,7 +261,7 @@ Section Algo.
     let count := len types in
     let offs0 := 0 :: repeat count (Z.to_nat T) in
     if (count =? 0) || (T <=? 1) then Some offs0
-    else split_loop (S (length types + Z.to_nat T)) types offs0 0 count 1 T.
+    else split_loop (S (2 * length types + Z.to_nat T)) types offs0 0 count 1 T.
   (* its definition: offsets[k] = number of elements of type < k *)
   Definition split_spec (types : list Z) (T : Z) : list Z :=
     map (fun k => len (filter (fun t => t <? Z.of_nat k) types)) (seq 0 (S (Z.to_nat T))).
